@@ -362,7 +362,7 @@ func (w *World) verifyFuncOnce(fi *FuncInfo, props []string, prefix []int, pathM
 				for _, k := range sortedKeys(c.heapSorts()) {
 					srt := c.heapSorts()[k]
 					he, hx := fx.entry.heap(k, srt), exit.heap(k, srt)
-					if he == hx || k == "NC" || k == "CLB" || k == "CNT" || k == "CNC" || k == "LV" || k == "NRT" {
+					if he == hx || k == "NC" || k == "NCT" || k == "CLB" || k == "CNT" || k == "CNC" || k == "LV" || k == "NRT" {
 						continue
 					}
 					// writes to objects allocated by this activation are invisible to the caller: every undeclared heap
@@ -504,6 +504,9 @@ func (fx *Fx) resultBindings(st *State, rc *retCtx) map[string]Val {
 			b[r.Name()] = v
 		}
 	}
+	if fx.fi != nil {
+		fx.w.aliasRecordedNames(fx.fi.Key, b)
+	}
 	return b
 }
 
@@ -529,6 +532,7 @@ func (fx *Fx) bindParamsFromEntry(env *SpecEnv, fi *FuncInfo) {
 			}
 		}
 	}
+	fx.w.aliasRecordedNames(fi.Key, env.bound)
 }
 
 func shortKey(key string) string {
@@ -827,6 +831,9 @@ func (w *World) modObjectOf(fi *FuncInfo, m string) string {
 	if strings.Contains(base, ".") {
 		return ""
 	}
+	if c, ok := w.renamesOf(fi)[base]; ok {
+		base = c
+	}
 	var sig *types.Signature
 	if fi.Obj != nil {
 		sig = fi.Obj.Type().(*types.Signature)
@@ -904,6 +911,11 @@ func (w *World) resolveModEntry(pkg *packages.Package, fi *FuncInfo, m string) (
 		return nil, fmt.Errorf("cannot resolve")
 	}
 	base, field := m[:k], m[k+1:]
+	if fi != nil {
+		if c, ok := w.renamesOf(fi)[base]; ok {
+			base = c
+		}
+	}
 	var bt types.Type
 	// parameter / receiver name?
 	if fi != nil {
